@@ -42,10 +42,10 @@ CHECKS = {
     "C06": dict(
         bin="run_chan", build="external", pkg="run_chan", level="exploration",
         quick=dict(runs=900, wall=75), thorough=dict(runs=60000, wall=900),
-        rule="two arms. release-rule: chansim schedules with cuts, write failures and forked reloads; every RevokeAndAck leaving the API (first transmission or retransmission) is checked at that instant against the durable local commitment height and against an independent BOLT-3 derivation of the node's own chain. revocation-store: a producer streams secrets into the real shachain store with bit flips, foreign seeds, replays, skips and serialise/deserialise restarts; every lookup is compared with the independent derivation. non-trivial = (release arm) fault fired and HTLC locked in afterwards / (store arm) >= 8 inserts; distinct = distinct trace hash",
-        expected_probes=["probe_rev_retransmitted", "probe_store_rejects_bad", "fault_write_fail_revoke"],
+        rule="two arms. release-rule: chansim schedules with cuts, write failures and forked reloads; every RevokeAndAck leaving the API (first transmission or retransmission) is checked at that instant against the durable local commitment height and against an independent BOLT-3 derivation of the node's own chain. revocation-store: a producer streams secrets into the real shachain store with bit flips, foreign seeds, replays, skips and serialise/deserialise restarts; every lookup is compared with the independent derivation; in half of the store runs the stream starts at a height k0 = 2^b - c, j*2^b - c or an arbitrary 47-bit pattern, the store for k0 received secrets being assembled from the BOLT-3 definition in the store's own serialisation. non-trivial = (release arm) fault fired and HTLC locked in afterwards / (store arm) >= 8 inserts; distinct = distinct trace hash",
+        expected_probes=["probe_rev_retransmitted", "probe_store_rejects_bad", "fault_write_fail_revoke", "probe_store_started_at_large_height", "probe_store_started_above_2^32"],
         real_vs_stub=dict(CHANSIM_STUB, **{"shachain.RevocationStore / RevocationProducer": "real", "secret oracle": "independent 20-line BOLT-3 generate_from_seed/derive_secret"}),
-        assumptions=CHAN_ASSUME + ["revocation store reachable only through AddNextEntry one index at a time: k <= 20000 per run (thorough)"],
+        assumptions=CHAN_ASSUME + ["a run inserts at most 20000 secrets one at a time; larger k are reached by loading a store assembled from the BOLT-3 definition (its serialisation is part of what is judged) and streaming on from there"],
         determinism="call-driven engine: exact replay",
     ),
     "C11": dict(
